@@ -26,9 +26,9 @@ LONG = {v: k for k, v in SHORT.items()}
 def lam_value(rng, dt: str, unit: str) -> float:
     """a wavelength in 0.01..100 angstrom expressed in `unit`, representable in dtype `dt` (integers: 1..100 resp. 1..10)"""
     l_ang = lu(rng, 0.01, 100)
-    v = l_ang if unit == 'angstrom' else l_ang / 10
+    v = l_ang * WL_PER_ANGSTROM[unit]
     if dt.startswith('int'):
-        return float(max(1, round(lu(rng, 1, 100) if unit == 'angstrom' else lu(rng, 1, 10))))
+        return float(max(1, round(lu(rng, 1, 100) * WL_PER_ANGSTROM[unit])))
     return float(np.dtype(dt).type(v))
 
 
@@ -40,6 +40,23 @@ def source_array(a):
     if a.size and np.all(a == np.round(a)) and np.all(np.abs(a) < 2**20):
         return a.astype(['int64', 'int32', 'float32'][int(np.abs(a).sum()) % 3])
     return a
+
+
+B_UNITS = ['1/angstrom', '1/angstrom', '1/nm', '1/m', 'dimensionless']
+Q_UNITS = ['1/angstrom', '1/angstrom', '1/nm']
+WL_UNITS = ['angstrom', 'angstrom', 'nm', 'pm']
+WL_PER_ANGSTROM = {'angstrom': 1.0, 'nm': 0.1, 'pm': 100.0}
+BEAM_UNITS = ['m', 'm', 'mm']
+
+
+def unit_factor(src, dst):
+    """exact-as-scipp factor such that 1 src = factor dst; None when the units are not convertible"""
+    import scipp as sc
+
+    try:
+        return Fraction(float(sc.to_unit(sc.scalar(1.0, unit=src), dst).value))
+    except Exception:  # noqa: BLE001
+        return None
 
 
 def u_res(dt: str) -> float:
@@ -66,6 +83,11 @@ RULE = (
     'per-pixel, per-run, a dim on the incident beam that the scattered beam lacks and vice versa, outer products, transposed '
     '(non-contiguous) storage, wavelength with dims of its own — every element of the broadcast result is judged against the '
     'reference for its own element operands and the result dims must be the union of the operand dims; '
+    'units: wavelength in angstrom/nm/pm, beams in m/mm, B in 1/angstrom, 1/nm, 1/m or dimensionless, Q_vec in 1/angstrom or 1/nm: '
+    'result units are checked (Q in 1/unit(wavelength), UB in the unit of B, unit(UB)*unit(hkl) convertible to unit(Q)) and '
+    '2pi R UB hkl = Q is judged in physical terms, also from the operands U, B (key C08:hkl-chain) and through the elastic_hkl '
+    'graph; zero-length beams and beams whose squared components underflow (norm 0): the result must be non-finite (key '
+    'C08:q-degenerate-beam-finite) and agree with the model bit for bit (NaN = NaN); '
     'call sequences: 2-4 consecutive calls of hkl_vec_from_Q_vec (same UB object with different R, same UB value in a new '
     'object, same R with different UB, same Q with both different, identical repeat, array chunk then scalars) and of '
     'Q_elements_from_wavelength / ub_matrix_from_u_and_b with shared operand objects: every call is judged against the exact '
@@ -178,8 +200,23 @@ def rand_dir(rng):
             return v / n
 
 
-def beam_pair(rng):
-    kind = rng.choice(['random', 'random', 'random', 'axis', 'near-parallel', 'near-antiparallel', 'perpendicular', 'int-valued'])
+def beam_pair(rng, degenerate=False):
+    kind = rng.choice(['random', 'random', 'random', 'random', 'axis', 'near-parallel', 'near-antiparallel', 'perpendicular', 'int-valued',
+                       'int-valued', 'zero-length', 'underflow-length'])
+    if kind in ('zero-length', 'underflow-length') and not degenerate:
+        kind = 'random'
+    if kind in ('zero-length', 'underflow-length'):
+        # a placeholder / monitor pixel at the sample position: the beam has length exactly 0, or so small that its
+        # squared components underflow to 0 (norm evaluates to 0): the direction, hence Q, is undefined
+        good = rand_dir(rng) * lu(rng, 0.1, 1e3)
+        if kind == 'zero-length':
+            bad = np.array([0.0, 0.0, -0.0]) if rng.random() < 0.3 else np.zeros(3)
+        else:
+            bad = rand_dir(rng) * 10.0 ** rng.uniform(-320, -170)
+            if not bad.any():
+                bad = np.array([5e-324, 0.0, 0.0])
+        which = rng.choice(['incident', 'scattered', 'both'])
+        return kind, (bad if which != 'scattered' else good), (bad if which != 'incident' else good)
     if kind == 'int-valued':
         while True:
             a = np.array([float(rng.randint(-20, 20)) for _ in range(3)])
@@ -249,6 +286,13 @@ def norm2(v) -> float:
     return math.sqrt(float(sum(Fraction(x) * Fraction(x) for x in v)))
 
 
+def degenerate_beam(b) -> bool:
+    """the float norm sqrt(x*x + y*y + z*z) of the beam is exactly 0 (zero beam, or all squares underflow)"""
+    b = np.asarray(b, dtype=np.float64)
+    with np.errstate(all='ignore'):
+        return float(np.sqrt(b[0] * b[0] + b[1] * b[1] + b[2] * b[2])) == 0.0
+
+
 def exact_q(lam: float, scale_to_inv_unit: Fraction, bi, bf):
     """(2 pi / lambda)(b_i/|b_i| - b_f/|b_f|) in 60-digit decimal arithmetic, on the float operands"""
     bi, bf = fvec(bi), fvec(bf)
@@ -260,18 +304,18 @@ def exact_q(lam: float, scale_to_inv_unit: Fraction, bi, bf):
 
 # ---- running the real code --------------------------------------------------------------------
 
-def impl_qel(lam_vals, lam_dtype, lam_unit, bis, bfs, scalar=False):
+def impl_qel(lam_vals, lam_dtype, lam_unit, bis, bfs, scalar=False, beam_unit='m'):
     import scipp as sc
     from scippneutron.conversion import tof as K
 
     if scalar:
         w = sc.scalar(np.dtype(lam_dtype).type(lam_vals[0]), unit=lam_unit, dtype=lam_dtype)
-        bi = sc.vector(source_array(bis[0]), unit='m')
-        bf = sc.vector(source_array(bfs[0]), unit='m')
+        bi = sc.vector(source_array(bis[0]), unit=beam_unit)
+        bf = sc.vector(source_array(bfs[0]), unit=beam_unit)
     else:
         w = sc.array(dims=['x'], values=np.array(lam_vals, dtype=lam_dtype), unit=lam_unit, dtype=lam_dtype)
-        bi = sc.vectors(dims=['x'], values=source_array(np.array(bis)), unit='m')
-        bf = sc.vectors(dims=['x'], values=source_array(np.array(bfs)), unit='m')
+        bi = sc.vectors(dims=['x'], values=source_array(np.array(bis)), unit=beam_unit)
+        bf = sc.vectors(dims=['x'], values=source_array(np.array(bfs)), unit=beam_unit)
     try:
         r = K.Q_elements_from_wavelength(wavelength=w, incident_beam=bi, scattered_beam=bf)
     except Exception as e:  # noqa: BLE001
@@ -290,24 +334,24 @@ def _rot_or_matrix(q, as_rotation):
     return rot_var(q) if as_rotation else sc.spatial.linear_transform(value=rot_matrix(q))
 
 
-def impl_ub(uq, u_as_rot, b):
+def impl_ub(uq, u_as_rot, b, b_unit='1/angstrom'):
     import scipp as sc
     from scippneutron.conversion import tof as K
 
     try:
         r = K.ub_matrix_from_u_and_b(u_matrix=_rot_or_matrix(uq, u_as_rot),
-                                     b_matrix=sc.spatial.linear_transform(value=source_array(b), unit='1/angstrom'))
+                                     b_matrix=sc.spatial.linear_transform(value=source_array(b), unit=b_unit))
     except Exception as e:  # noqa: BLE001
         return _err(e)
     return r
 
 
-def impl_hkl(q, ub_var, rq, r_as_rot):
+def impl_hkl(q, ub_var, rq, r_as_rot, q_unit='1/angstrom'):
     import scipp as sc
     from scippneutron.conversion import tof as K
 
     try:
-        r = K.hkl_vec_from_Q_vec(Q_vec=sc.vector(source_array(q), unit='1/angstrom'), ub_matrix=ub_var,
+        r = K.hkl_vec_from_Q_vec(Q_vec=sc.vector(source_array(q), unit=q_unit), ub_matrix=ub_var,
                                  sample_rotation=_rot_or_matrix(rq, r_as_rot))
     except Exception as e:  # noqa: BLE001
         return _err(e)
@@ -413,17 +457,18 @@ def correspond(ctx):
     lines = []
     for _ in range(ctx.n(300, 6000)):
         dt = rng.choice(WL_DTYPES)
-        unit = rng.choice(['angstrom', 'angstrom', 'nm'])
+        unit = rng.choice(WL_UNITS)
+        beam_unit = rng.choice(BEAM_UNITS)
         scalar = rng.random() < 0.2
         n = 1 if scalar else rng.randint(1, 40)
         lam, bis, bfs, kinds = [], [], [], []
         for _ in range(n):
             lam.append(lam_value(rng, dt, unit))
-            k, a, b = beam_pair(rng)
+            k, a, b = beam_pair(rng, degenerate=True)
             kinds.append(k)
             bis.append(a)
             bfs.append(b)
-        groups.append((dt, unit, scalar, lam, bis, bfs, kinds))
+        groups.append((dt, unit, scalar, lam, bis, bfs, kinds, beam_unit))
         for l, a, b in zip(lam, bis, bfs):
             lines.append(('c08.qel32 ' if dt == 'float32' else 'c08.qel ') + ' '.join(bits(x) for x in (l, *a, *b)))
     outs = ctx.driver(lines)
@@ -431,8 +476,9 @@ def correspond(ctx):
     res_dtype = {LONG[d]: LONG[o] for d, o in zip(SHORT.values(), ctx.driver([f'c08.qdtype {d}' for d in SHORT.values()]))}
     ctx.count('dtype-not-evaluable:vector3 and linear_transform3 exist only as float64 (integer / float32 sources are converted on construction)', 0)
     pos = 0
-    for dt, unit, scalar, lam, bis, bfs, kinds in groups:
-        res = impl_qel(lam, dt, unit, bis, bfs, scalar)
+    for dt, unit, scalar, lam, bis, bfs, kinds, beam_unit in groups:
+        res = impl_qel(lam, dt, unit, bis, bfs, scalar, beam_unit)
+        ctx.count('qel-units:' + unit + '/' + beam_unit)
         mo = outs[pos:pos + len(lam)]
         pos += len(lam)
         ctx.count(f'qel:{dt}:{unit}:{"scalar" if scalar else "array"}')
@@ -450,7 +496,15 @@ def correspond(ctx):
                      sample={'op': 'qel', 'lambda': l, 'unit': unit, 'dtype': dt, 'kind': kd, 'impl': [bits(x) for x in v], 'model': m})
             ctx.count('qel-kind:' + kd)
             k = 2 * math.pi / l
-            if all(x == y for x, y in zip(v, mv_)):
+            same = lambda x, y: x == y or (math.isnan(x) and math.isnan(y))  # noqa: E731
+            if degenerate_beam(a) or degenerate_beam(b):
+                # zero-length beam: the model (0/0, x/0 as coded) and the code must produce the same NaN / inf pattern
+                ctx.count('qel:degenerate-beam')
+                if not all(same(x, y) for x, y in zip(v, mv_)):
+                    ctx.disagree({'op': 'qel', 'lambda': bits(l), 'bi': [bits(x) for x in a], 'bf': [bits(x) for x in b]},
+                                 [repr(float(x)) for x in v], m, 'zero-length beam: NaN/inf pattern differs from the model')
+                continue
+            if all(same(x, y) for x, y in zip(v, mv_)):
                 ctx.count('qel:bit-equal')
             elif all(abs(x - y) <= Q_ULPS * U64 * k + (2 * U32 * abs(y) if dt == 'float32' else 0.0) for x, y in zip(v, mv_)):
                 # float64 computation within the derived bound; a float32 result may then round to the neighbour
@@ -472,12 +526,13 @@ def correspond(ctx):
             b, bkind = b_matrix(rng)
         q = rand_dir(rng) * lu(rng, 0.01, 100)
         um, rm = rot_matrix(uq), rot_matrix(rq)
-        cases.append((uq, u_rot, rq, r_rot, b, bkind, q, um, rm))
+        cases.append((uq, u_rot, rq, r_rot, b, bkind, q, um, rm, rng.choice(B_UNITS), rng.choice(Q_UNITS)))
         lines.append('c08.ub ' + ' '.join(bits(x) for x in (*um.ravel(), *b.ravel())))
     outs = ctx.driver(lines)
     lines2, keep = [], []
-    for (uq, u_rot, rq, r_rot, b, bkind, q, um, rm), o in zip(cases, outs):
-        ubv = impl_ub(uq, u_rot, b)
+    for (uq, u_rot, rq, r_rot, b, bkind, q, um, rm, b_unit, q_unit), o in zip(cases, outs):
+        ubv = impl_ub(uq, u_rot, b, b_unit)
+        ctx.count(f'ub-units:{b_unit}|Q:{q_unit}')
         ctx.count(f'ub:{"rotation3" if u_rot else "linear_transform3"}:{bkind}')
         ctx.case(('ub', tuple(bits(x) for x in (*uq, *b.ravel())), u_rot), True)
         if isinstance(ubv, str):
@@ -486,7 +541,8 @@ def correspond(ctx):
         ub = np.array(ubv.value)
         model = np.array([unbits(t) if t != 'nan' else math.nan for t in o.split()]).reshape(3, 3)
         bound = 8 * U64 * (np.abs(um) @ np.abs(b))
-        meta = (str(ubv.dtype), bool(ubv.unit == sc.Unit('1/angstrom')), dict(ubv.sizes))
+        # unit as coded: unit(U) * unit(B), values not converted
+        meta = (str(ubv.dtype), bool(ubv.unit == sc.Unit('dimensionless') * sc.Unit(b_unit)), dict(ubv.sizes))
         if meta != ('linear_transform3', True, {}):
             ctx.disagree({'op': 'ub'}, meta, ('linear_transform3', True, {}), 'dtype / unit / sizes of UB')
         if not np.all(np.abs(ub - model) <= bound):
@@ -494,10 +550,10 @@ def correspond(ctx):
                          [bits(x) for x in ub.ravel()], o, 'U*B differs by more than 8u(|U||B|)')
         # hkl on the implementation's own UB (so both sides invert the same matrix)
         lines2.append('c08.hkl ' + ' '.join(bits(x) for x in (*q, *ub.ravel(), *rm.ravel())))
-        keep.append((ubv, ub, rq, r_rot, rm, q, bkind))
+        keep.append((ubv, ub, rq, r_rot, rm, q, bkind, b_unit, q_unit))
     outs2 = ctx.driver(lines2)
-    for (ubv, ub, rq, r_rot, rm, q, bkind), o in zip(keep, outs2):
-        hv = impl_hkl(q, ubv, rq, r_rot)
+    for (ubv, ub, rq, r_rot, rm, q, bkind, b_unit, q_unit), o in zip(keep, outs2):
+        hv = impl_hkl(q, ubv, rq, r_rot, q_unit)
         ctx.count(f'hkl:{"rotation3" if r_rot else "linear_transform3"}:{bkind}')
         ctx.case(('hkl', tuple(bits(x) for x in (*q, *ub.ravel(), *rq)), r_rot), True,
                  sample={'op': 'hkl', 'q': [bits(x) for x in q], 'kind': bkind, 'model': o})
@@ -506,7 +562,8 @@ def correspond(ctx):
             continue
         h = np.array(hv.value, dtype=np.float64)
         model = np.array([unbits(t) if t != 'nan' else math.nan for t in o.split()])
-        meta = (str(hv.dtype), bool(hv.unit == sc.Unit('one')), dict(hv.sizes))
+        # unit as coded: unit(Q) / (unit(R) * unit(UB))
+        meta = (str(hv.dtype), bool(hv.unit == sc.Unit(q_unit) / ubv.unit), dict(hv.sizes))
         if meta != ('vector3', True, {}):
             ctx.disagree({'op': 'hkl'}, meta, ('vector3', True, {}), 'dtype / unit / sizes of hkl_vec')
         fin_i, fin_m = bool(np.all(np.isfinite(h))), bool(np.all(np.isfinite(model)))
@@ -547,8 +604,12 @@ def correspond(ctx):
         k = 2 * math.pi / float(w.at(idx))
         ctx.case(('q-shape', pattern, tuple(w.dims), tuple(bi.dims), tuple(bf.dims), tuple(sorted(idx.items())), bits(float(w.at(idx))),
                   tuple(bits(x) for x in bf.at(idx))), True)
-        if not all(abs(x - y) <= Q_ULPS * U64 * k for x, y in zip(got, mv_)):
-            ctx.disagree(dict(q_shape_witness(pattern, sizes, w, bi, bf), index=idx), [bits(x) for x in got], o,
+        if degenerate_beam(bi.at(idx)) or degenerate_beam(bf.at(idx)):
+            ok = all(x == y or (math.isnan(x) and math.isnan(y)) for x, y in zip(got, mv_))
+        else:
+            ok = all(abs(x - y) <= Q_ULPS * U64 * k for x, y in zip(got, mv_))
+        if not ok:
+            ctx.disagree(dict(q_shape_witness(pattern, sizes, w, bi, bf), index=idx), [repr(float(x)) for x in got], o,
                          'element of a shaped evaluation differs from the model on the same element operands')
     shaped, lines = [], []
     for _ in range(ctx.n(200, 4000)):
@@ -652,6 +713,13 @@ def correspond(ctx):
 def _check_q_point(lam, dt, unit, bi, bf, got):
     """violations for one evaluated Q vector `got` (three floats, in 1/unit)"""
     out = []
+    if degenerate_beam(bi) or degenerate_beam(bf):
+        # e = beam/|beam| is undefined (0/0, x/0): the code as it is yields NaN / inf; a finite Q would be an invention
+        if any(math.isfinite(x) for x in got):
+            return [('C08:q-degenerate-beam-finite',
+                     f'a beam has length 0 (incident {list(map(float, bi))!r}, scattered {list(map(float, bf))!r}) but Q = {got!r} has finite '
+                     'components; the unit vector, hence Q, is undefined there (the scalar Q is NaN)', {})]
+        return []
     scale = Fraction(1)  # result is in 1/unit(lambda) and lambda is given in that unit
     ref, k = exact_q(lam, scale, bi, bf)
     tol = D(Fraction(Q_ULPS * u_res(dt))) * k   # forward-error bound in the precision of the result
@@ -675,17 +743,18 @@ def _oracle_q(ctx, n):
     rng = ctx.rng
     for _ in range(n):
         dt = rng.choice(WL_DTYPES)
-        unit = rng.choice(['angstrom', 'angstrom', 'nm'])
+        unit = rng.choice(WL_UNITS)
+        beam_unit = rng.choice(BEAM_UNITS)
         m = rng.randint(1, 12)
         lam, bis, bfs, kinds = [], [], [], []
         for _ in range(m):
             lam.append(lam_value(rng, dt, unit))
-            kd, a, b = beam_pair(rng)
+            kd, a, b = beam_pair(rng, degenerate=True)
             kinds.append(kd)
             bis.append(a)
             bfs.append(b)
-        res = impl_qel(lam, dt, unit, bis, bfs)
-        wit0 = {'op': 'qel', 'lambda': bits(lam[0]), 'dtype': dt, 'unit': unit, 'bi': [bits(x) for x in bis[0]], 'bf': [bits(x) for x in bfs[0]]}
+        res = impl_qel(lam, dt, unit, bis, bfs, beam_unit=beam_unit)
+        wit0 = {'op': 'qel', 'beam_unit': beam_unit, 'lambda': bits(lam[0]), 'dtype': dt, 'unit': unit, 'bi': [bits(x) for x in bis[0]], 'bf': [bits(x) for x in bfs[0]]}
         if isinstance(res, str):
             ctx.violation('C08:q-raises', f'Q_elements_from_wavelength raised {res}', wit0)
             continue
@@ -695,13 +764,13 @@ def _oracle_q(ctx, n):
         # scaled beams, rotated beams, scalar Q — evaluated on the same operands
         sa = [lu(rng, 1e-3, 1e3) if rng.random() < 0.7 else 2.0 ** rng.randint(-8, 8) for _ in range(m)]
         sb = [lu(rng, 1e-3, 1e3) if rng.random() < 0.7 else 2.0 ** rng.randint(-8, 8) for _ in range(m)]
-        res_s = impl_qel(lam, dt, unit, [a * s for a, s in zip(bis, sa)], [b * s for b, s in zip(bfs, sb)])
+        res_s = impl_qel(lam, dt, unit, [a * s for a, s in zip(bis, sa)], [b * s for b, s in zip(bfs, sb)], beam_unit=beam_unit)
         rq = rand_quat(rng)
         rvar, rm = rot_var(rq), rot_matrix(rq)
-        bi_v = sc.vectors(dims=['x'], values=np.array(bis), unit='m')
-        bf_v = sc.vectors(dims=['x'], values=np.array(bfs), unit='m')
+        bi_v = sc.vectors(dims=['x'], values=np.array(bis), unit=beam_unit)
+        bf_v = sc.vectors(dims=['x'], values=np.array(bfs), unit=beam_unit)
         rbi, rbf = np.array((rvar * bi_v).values), np.array((rvar * bf_v).values)
-        res_r = impl_qel(lam, dt, unit, list(rbi), list(rbf))
+        res_r = impl_qel(lam, dt, unit, list(rbi), list(rbf), beam_unit=beam_unit)
         qs = None
         if BL is not None:
             try:
@@ -714,13 +783,19 @@ def _oracle_q(ctx, n):
                 qs = None
         fm = fmat(rm)
         for i in range(m):
-            wit = {'op': 'qel', 'lambda': bits(lam[i]), 'dtype': dt, 'unit': unit, 'kind': kinds[i],
+            wit = {'op': 'qel', 'lambda': bits(lam[i]), 'dtype': dt, 'unit': unit, 'kind': kinds[i], 'beam_unit': beam_unit,
                    'bi': [bits(x) for x in bis[i]], 'bf': [bits(x) for x in bfs[i]]}
             ctx.case(('oracle-q', wit['lambda'], tuple(wit['bi']), tuple(wit['bf']), dt, unit), True)
             ctx.count('oracle-q:' + kinds[i])
             got = [float(x) for x in vals[i]]
             for key, what, ex in _check_q_point(lam[i], dt, unit, bis[i], bfs[i], got):
                 ctx.violation(key, what, dict(wit, **ex))
+            if degenerate_beam(bis[i]) or degenerate_beam(bfs[i]):
+                # undefined direction: the scalar Q of the same beams must not be finite either
+                exact_zero = not np.asarray(bis[i]).any() or not np.asarray(bfs[i]).any()
+                if exact_zero and qs is not None and math.isfinite(float(qs[i])):
+                    ctx.violation('C08:q-norm-vs-scalar', f'zero-length beam but Q_from_wavelength(two_theta) = {float(qs[i])!r} is finite', wit)
+                continue
             k = D(2 * PI) / D(Fraction(lam[i]))
             u = D(Fraction(u_res(dt)))
             if not isinstance(res_s, str):
@@ -759,14 +834,17 @@ def exact_solve(m, q):
     return [sum(adj[r][k] * q[k] for k in range(3)) / det for r in range(3)]
 
 
-def _judge_hkl(q, ub, rm, h):
+def _judge_hkl(q, ub, rm, h, factor=Fraction(1)):
     """"to rounding" for the documented single closed-form inversion of R*UB → (key, what) or None.
 
     With s1 >= s2 >= s3 the singular values of R*UB, the determinant formed from cofactors carries a
     relative error of order u*s1^2/(s2 s3) (it is a sum of terms of size s1^3 that cancels down to
     s1 s2 s3), which scales hkl as a whole; both the residual and the forward error are therefore
     bounded by C*u*s1^2/(s2 s3) — equal to C*u*cond when only one singular value is small and up to
-    C*u*cond^2 when two are.  C = 32 (observed maximum ≈ 3)."""
+    C*u*cond^2 when two are.  C = 32 (observed maximum ≈ 3).
+
+    `factor` converts unit(UB)*unit(hkl) into unit(Q): the statement checked is the physical one,
+    2pi R UB hkl = Q with every quantity in its own unit."""
     if not all(math.isfinite(float(x)) for x in h):
         return ('C08:hkl-nonfinite', 'hkl has a non-finite component for a non-singular R*UB')
     mf = np.array(rm) @ np.array(ub)
@@ -778,15 +856,15 @@ def _judge_hkl(q, ub, rm, h):
         return None
     m = mm(fmat(rm), fmat(ub))
     hv, qv = fvec(h), fvec(q)
-    res = [2 * PI * a - b for a, b in zip(mv(m, hv), qv)]
+    res = [2 * PI * factor * a - b for a, b in zip(mv(m, hv), qv)]
     rel = norm2(res) / norm2(qv)
     bound = HKL_C * dk * U64
     if rel > bound:
         return ('C08:hkl-residual', f'|2pi R UB hkl - Q|/|Q| = {rel:.3e} exceeds {HKL_C}*(s1^2/(s2 s3))*2^-53 = {bound:.3e} '
                                     f'(cond={cond:.3e}, s1^2/(s2 s3)={dk:.3e})')
-    exact = [x / (2 * PI) for x in exact_solve(m, qv)]
+    exact = [x / (2 * PI * factor) for x in exact_solve(m, qv)]
     ferr = norm2([a - b for a, b in zip(hv, exact)])
-    fscale = norm2(qv) / float(sv[2]) / (2 * math.pi)   # |inv(R UB)| |Q| / 2pi
+    fscale = norm2(qv) / float(sv[2]) / (2 * math.pi) / float(factor)   # |inv(R UB)| |Q| / 2pi, in the unit of hkl
     if ferr > bound * fscale:
         return ('C08:hkl-forward-error', f'|hkl - hkl_exact| = {ferr:.3e} exceeds {HKL_C}*(s1^2/(s2 s3))*2^-53*|inv(R UB)||Q|/2pi = '
                                          f'{bound * fscale:.3e} (cond={cond:.3e})')
@@ -805,9 +883,11 @@ def _oracle_hkl(ctx, n):
         q = rand_dir(rng) * lu(rng, 0.01, 100)
         um, rm = rot_matrix(uq), rot_matrix(rq)
         wit = {'op': 'hkl', 'uq': [bits(x) for x in uq], 'rq': [bits(x) for x in rq], 'u_rot': u_rot, 'r_rot': r_rot,
-               'b': [bits(x) for x in b.ravel()], 'q': [bits(x) for x in q], 'bkind': bkind}
-        ctx.case(('oracle-hkl', tuple(wit['uq']), tuple(wit['rq']), tuple(wit['b']), tuple(wit['q'])), True)
+               'b': [bits(x) for x in b.ravel()], 'q': [bits(x) for x in q], 'bkind': bkind,
+               'b_unit': rng.choice(B_UNITS), 'q_unit': rng.choice(Q_UNITS)}
+        ctx.case(('oracle-hkl', tuple(wit['uq']), tuple(wit['rq']), tuple(wit['b']), tuple(wit['q']), wit['b_unit'], wit['q_unit']), True)
         ctx.count('oracle-hkl:' + bkind)
+        ctx.count(f"oracle-hkl-units:B {wit['b_unit']}|Q {wit['q_unit']}")
         _hkl_point(ctx, wit)
 
 
@@ -905,27 +985,29 @@ def _oracle_graph(ctx, n):
     rng = ctx.rng
     for _ in range(n):
         m = rng.randint(1, 5)
-        lam = [lu(rng, 0.01, 100) for _ in range(m)]
+        wl_unit, beam_unit, b_unit = rng.choice(WL_UNITS), rng.choice(BEAM_UNITS), rng.choice(B_UNITS)
+        lam = [lu(rng, 0.01, 100) * WL_PER_ANGSTROM[wl_unit] for _ in range(m)]
         pairs = [beam_pair(rng) for _ in range(m)]
         bis, bfs = [p[1] for p in pairs], [p[2] for p in pairs]
         uq, rq = rand_quat(rng), rand_quat(rng)
         b, bkind = b_matrix(rng)
         da = sc.DataArray(sc.ones(dims=['x'], shape=[m]), coords={
-            'wavelength': sc.array(dims=['x'], values=lam, unit='angstrom'),
-            'incident_beam': sc.vectors(dims=['x'], values=np.array(bis), unit='m'),
-            'scattered_beam': sc.vectors(dims=['x'], values=np.array(bfs), unit='m'),
-            'u_matrix': rot_var(uq), 'b_matrix': sc.spatial.linear_transform(value=b, unit='1/angstrom'),
+            'wavelength': sc.array(dims=['x'], values=lam, unit=wl_unit),
+            'incident_beam': sc.vectors(dims=['x'], values=np.array(bis), unit=beam_unit),
+            'scattered_beam': sc.vectors(dims=['x'], values=np.array(bfs), unit=beam_unit),
+            'u_matrix': rot_var(uq), 'b_matrix': sc.spatial.linear_transform(value=b, unit=b_unit),
             'sample_rotation': rot_var(rq)})
         wit = {'op': 'graph', 'lambda': [bits(x) for x in lam], 'bi': [[bits(x) for x in v] for v in bis],
                'bf': [[bits(x) for x in v] for v in bfs], 'uq': [bits(x) for x in uq], 'rq': [bits(x) for x in rq],
-               'b': [bits(x) for x in b.ravel()]}
-        ctx.case(('oracle-graph', tuple(wit['lambda']), tuple(wit['uq']), tuple(wit['b'])), True)
-        ctx.count('oracle-graph')
+               'b': [bits(x) for x in b.ravel()], 'wl_unit': wl_unit, 'beam_unit': beam_unit, 'b_unit': b_unit}
+        ctx.case(('oracle-graph', tuple(wit['lambda']), tuple(wit['uq']), tuple(wit['b']), wl_unit, beam_unit, b_unit), True)
+        ctx.count(f'oracle-graph:{wl_unit}/{beam_unit}/B {b_unit}')
         try:
             out = da.transform_coords(['Q_vec', 'hkl_vec', 'h', 'k', 'l'], graph=G.elastic_hkl('wavelength'), keep_intermediate=True)
             qv = np.array(out.coords['Q_vec'].values).reshape(m, 3)
             hk = np.array(out.coords['hkl_vec'].values).reshape(m, 3)
             ub = np.array(out.coords['ub_matrix'].value)
+            ub_unit, h_unit, q_unit = out.coords['ub_matrix'].unit, out.coords['hkl_vec'].unit, out.coords['Q_vec'].unit
             comps = np.stack([np.asarray(out.coords[k].values) for k in ('h', 'k', 'l')], axis=1)
         except Exception as e:  # noqa: BLE001
             ctx.violation('C08:graph-raises', f'transform_coords with elastic_hkl raised {_err(e)}', wit)
@@ -933,12 +1015,26 @@ def _oracle_graph(ctx, n):
         rm = rot_matrix(rq)
         if not np.array_equal(comps, hk):
             ctx.violation('C08:split-lossy', 'h, k, l of the graph are not the components of hkl_vec', wit)
+        if unit_factor(q_unit, sc.Unit('one') / sc.Unit(wl_unit)) != 1:
+            ctx.violation('C08:q-unit', f'Q_vec of the graph has unit {q_unit} for a wavelength in {wl_unit}', wit)
+        if unit_factor(ub_unit, b_unit) != 1:
+            ctx.violation('C08:ub-product', f'ub_matrix of the graph has unit {ub_unit} for B in {b_unit}', wit)
+        factor = unit_factor(ub_unit * h_unit, q_unit)
+        chain = unit_factor(sc.Unit(b_unit) * h_unit, q_unit)
+        if factor is None or chain is None:
+            ctx.violation('C08:hkl-unit', f'unit(UB)*unit(hkl) = {ub_unit * h_unit} / unit(B)*unit(hkl) is not convertible to unit(Q) = {q_unit}', wit)
+            continue
+        um = rot_matrix(uq)
         for i in range(m):
-            for key, what, ex in _check_q_point(lam[i], 'float64', 'angstrom', bis[i], bfs[i], [float(x) for x in qv[i]]):
+            for key, what, ex in _check_q_point(lam[i], 'float64', wl_unit, bis[i], bfs[i], [float(x) for x in qv[i]]):
                 ctx.violation(key, what + ' (through the graph)', dict(wit, index=i))
-            j = _judge_hkl(qv[i], ub, rm, hk[i])
+            j = _judge_hkl(qv[i], ub, rm, hk[i], factor)
             if j:
                 ctx.violation(j[0], j[1] + ' (through the graph)', dict(wit, index=i))
+            jc = _judge_hkl(qv[i], um @ b, rm, hk[i], chain)
+            if jc:
+                ctx.violation('C08:hkl-chain', f'2pi R U B hkl = Q fails in physical units through the graph (B in {b_unit}, Q in {q_unit}, '
+                              f'hkl in {h_unit}): ' + jc[1], dict(wit, index=i))
 
 
 def _hkl_point(ctx, wit):
@@ -951,7 +1047,8 @@ def _hkl_point(ctx, wit):
     b = np.array([unbits(x) for x in wit['b']]).reshape(3, 3)
     q = np.array([unbits(x) for x in wit['q']])
     um, rm = rot_matrix(uq), rot_matrix(rq)
-    ubv = impl_ub(uq, wit['u_rot'], b)
+    b_unit, q_unit = wit.get('b_unit', '1/angstrom'), wit.get('q_unit', '1/angstrom')
+    ubv = impl_ub(uq, wit['u_rot'], b, b_unit)
     if isinstance(ubv, str):
         ctx.violation('C08:ub-raises', f'ub_matrix_from_u_and_b raised {ubv}', wit)
         return
@@ -959,18 +1056,29 @@ def _hkl_point(ctx, wit):
     exact = mm(fmat(um), fmat(b))
     bound = 8 * U64 * (np.abs(um) @ np.abs(b))
     bad = [(i, j) for i in range(3) for j in range(3) if abs(Fraction(float(ub[i, j])) - exact[i][j]) > Fraction(float(bound[i, j]))]
-    if bad or ubv.unit != sc.Unit('1/angstrom'):
-        ctx.violation('C08:ub-product', f'UB is not U*B (entries {bad}, unit {ubv.unit})', wit)
-    hv = impl_hkl(q, ubv, rq, wit['r_rot'])
+    # UB = U*B as a physical quantity: U is dimensionless, so UB carries the unit of B with the numbers of U*B
+    if bad or unit_factor(ubv.unit, b_unit) != 1:
+        ctx.violation('C08:ub-product', f'UB is not U*B (entries {bad}; unit {ubv.unit} for B in {b_unit})', wit)
+    hv = impl_hkl(q, ubv, rq, wit['r_rot'], q_unit)
     if isinstance(hv, str):
         ctx.violation('C08:hkl-raises', f'hkl_vec_from_Q_vec raised {hv}', wit)
         return
-    if hv.unit != sc.Unit('one'):
-        ctx.violation('C08:hkl-unit', f'hkl has unit {hv.unit}', wit)
     h = np.array(hv.value, dtype=np.float64)
-    j = _judge_hkl(q, ub, rm, h)
+    factor = unit_factor(ubv.unit * hv.unit, q_unit)
+    if factor is None:
+        ctx.violation('C08:hkl-unit', f'unit(UB)*unit(hkl) = {ubv.unit * hv.unit} is not convertible to unit(Q) = {q_unit}', wit)
+        return
+    j = _judge_hkl(q, ub, rm, h, factor)
     if j:
         ctx.violation(j[0], j[1], wit)
+    # the whole chain in physical terms, from the OPERANDS: 2pi R (U B [unit of B]) hkl [unit of hkl] = Q [unit of Q]
+    cf = unit_factor(sc.Unit(b_unit) * hv.unit, q_unit)
+    if cf is None:
+        ctx.violation('C08:hkl-chain', f'unit(B)*unit(hkl) = {sc.Unit(b_unit) * hv.unit} is not convertible to unit(Q) = {q_unit}', wit)
+    else:
+        jc = _judge_hkl(q, um @ b, rm, h, cf)
+        if jc:
+            ctx.violation('C08:hkl-chain', f'2pi R U B hkl = Q fails in physical units (B in {b_unit}, Q in {q_unit}, hkl in {hv.unit}): ' + jc[1], wit)
     try:
         el = K.hkl_elements_from_hkl_vec(hkl_vec=hv)
         if [float(el[k].value) for k in ('h', 'k', 'l')] != [float(x) for x in h]:
@@ -1289,7 +1397,7 @@ def gen_q_shapes(rng):
     def beams(dims):
         shape = [sizes[d] for d in dims]
         n = int(np.prod(shape)) if shape else 1
-        a = np.array([beam_pair(rng)[1 + (i % 2)] for i in range(n)]).reshape([*shape, 3])
+        a = np.array([beam_pair(rng, degenerate=True)[1 + (i % 2)] for i in range(n)]).reshape([*shape, 3])
         return a if dims else a.reshape(3)
 
     shape_w = [sizes[d] for d in dw]
@@ -1470,11 +1578,11 @@ def replay(ctx, payload):
     w = payload.get('witness', {})
     key = payload.get('key', '')
     op = w.get('op')
-    if op == 'qel' and key in ('C08:q-definition', 'C08:q-nonfinite', 'C08:q-raises', 'C08:q-unit'):
+    if op == 'qel' and key in ('C08:q-definition', 'C08:q-nonfinite', 'C08:q-raises', 'C08:q-unit', 'C08:q-degenerate-beam-finite'):
         lam = unbits(w['lambda'])
         bi = np.array([unbits(x) for x in w['bi']])
         bf = np.array([unbits(x) for x in w['bf']])
-        res = impl_qel([lam], w['dtype'], w['unit'], [bi], [bf])
+        res = impl_qel([lam], w['dtype'], w['unit'], [bi], [bf], beam_unit=w.get('beam_unit', 'm'))
         if isinstance(res, str):
             print('raised', res)
             return True
@@ -1495,29 +1603,11 @@ def replay(ctx, payload):
             print('C08:history-dependent -', what)
         return bool(found)
     if op == 'hkl':
-        uq = np.array([unbits(x) for x in w['uq']])
-        rq = np.array([unbits(x) for x in w['rq']])
-        b = np.array([unbits(x) for x in w['b']]).reshape(3, 3)
-        q = np.array([unbits(x) for x in w['q']])
-        ubv = impl_ub(uq, w['u_rot'], b)
-        if isinstance(ubv, str):
-            print('raised', ubv)
-            return True
-        hv = impl_hkl(q, ubv, rq, w['r_rot'])
-        if isinstance(hv, str):
-            print('raised', hv)
-            return True
-        um = rot_matrix(uq)
-        exact = mm(fmat(um), fmat(b))
-        ub = np.array(ubv.value)
-        bound = 8 * U64 * (np.abs(um) @ np.abs(b))
-        bad = [(i, j) for i in range(3) for j in range(3) if abs(Fraction(float(ub[i, j])) - exact[i][j]) > Fraction(float(bound[i, j]))]
-        j = _judge_hkl(q, ub, rot_matrix(rq), np.array(hv.value))
-        if bad:
-            print('C08:ub-product - entries', bad)
-        if j:
-            print(j[0], '-', j[1])
-        return bool(j) or bool(bad)
+        sub = type(ctx)(ctx.prop, 'quick', payload.get('seed', 0), ctx.repo)
+        _hkl_point(sub, w)
+        for v in sub.violations:
+            print(v['key'], '-', v['what'])
+        return bool(sub.violations)
     if op == 'qvec':
         dts = w.get('dtypes', ['float64'] * 3)
         x, y, z = (make_var([tuple(p) for p in w[k]], s, d) for (k, s), d in zip((('x', 1.0), ('y', 101.0), ('z', 201.0)), dts))
